@@ -43,7 +43,8 @@ type ObjCase struct {
 	// Shape: inv (m-of-n sender, invocation script of 66*m bytes), ver (1-of-n sender, verification script of 35*n+8
 	// bytes), signers (A single-signature signers), mixed (A signers + B Conflicts attributes), contracts / groups / rules
 	// (scope list of A entries), script (A = script length - 65535), nest (one rule whose condition is nested A deep),
-	// and (one rule with an And / Or of A conditions).
+	// and (one rule with an And / Or of A conditions), scope (scope byte B), action (rule action A), version (A),
+	// dupattr (A NotValidBefore attributes), unscoped (A entries in a list whose scope is not set: not on the wire).
 	Shape string `json:"shape"`
 	A     int    `json:"a"`
 	B     int    `json:"b"`
@@ -53,7 +54,7 @@ type ObjCase struct {
 func genObjCase(t *rapid.T) ObjCase {
 	c := ObjCase{
 		Chain: ck.ChainCfg{Profile: rapid.SampledFrom([]string{"V1C1", "V4C6"}).Draw(t, "profile")},
-		Shape: rapid.SampledFrom([]string{"inv", "inv", "ver", "signers", "mixed", "contracts", "groups", "rules", "script", "nest", "and"}).Draw(t, "shape"),
+		Shape: rapid.SampledFrom([]string{"inv", "inv", "ver", "signers", "mixed", "contracts", "groups", "rules", "script", "nest", "and", "scope", "action", "version", "dupattr", "unscoped"}).Draw(t, "shape"),
 		Nonce: rapid.Uint32().Draw(t, "nonce"),
 	}
 	switch c.Shape {
@@ -77,12 +78,26 @@ func genObjCase(t *rapid.T) ObjCase {
 	case "and":
 		c.A = rapid.SampledFrom([]int{0, 1, 15, 16, 17}).Draw(t, "items")
 		c.B = rapid.IntRange(0, 1).Draw(t, "or")
+	case "scope":
+		// B: the scope byte of the sender (valid ones and Global combined with another, unknown bits)
+		c.B = rapid.SampledFrom([]int{0x00, 0x01, 0x80, 0x81, 0x90, 0x02, 0x03, 0x04, 0x08, 0x20, 0x11, 0x41}).Draw(t, "scope")
+	case "action":
+		c.A = rapid.SampledFrom([]int{0, 1, 2, 3}).Draw(t, "action")
+	case "version":
+		c.A = rapid.IntRange(0, 2).Draw(t, "version")
+	case "dupattr":
+		c.A = rapid.IntRange(1, 3).Draw(t, "nvbs")
+	case "unscoped":
+		// A entries in a scope list whose scope is NOT set (the list is not a part of the wire form): B 0 contracts,
+		// 1 groups, 2 rules
+		c.A = rapid.SampledFrom([]int{1, 16, 17, 30}).Draw(t, "entries")
+		c.B = rapid.IntRange(0, 2).Draw(t, "list")
 	}
 	return c
 }
 
 func checkObjCase(c ObjCase, o *vt.Obs) error {
-	if c.A < -1 || c.A > 40 || c.B < 0 || c.B > 40 {
+	if c.A < -1 || c.A > 255 || c.B < 0 || c.B > 255 {
 		return nil
 	}
 	e, err := newEnv(c.Chain)
@@ -91,6 +106,12 @@ func checkObjCase(c ObjCase, o *vt.Obs) error {
 	}
 	defer e.close()
 	k, bc := e.k, e.k.bc
+	switch c.Shape {
+	case "contracts", "groups", "rules", "unscoped", "mixed":
+		if c.A > len(widePool) {
+			return nil
+		}
+	}
 
 	var rs []rsigner
 	add := func(a ck.Actor) {
@@ -98,17 +119,17 @@ func checkObjCase(c ObjCase, o *vt.Obs) error {
 	}
 	switch c.Shape {
 	case "inv":
-		if c.A < 1 || c.B < c.A {
+		if c.A < 1 || c.B < c.A || c.B > len(widePool) {
 			return nil
 		}
 		add(ck.Multisig(c.A, widePool[:c.B]))
 	case "ver":
-		if c.A < 1 {
+		if c.A < 1 || c.A > len(widePool) {
 			return nil
 		}
 		add(ck.Multisig(1, widePool[:c.A]))
 	case "signers", "mixed":
-		if c.A < 1 {
+		if c.A < 1 || c.A > len(widePool) {
 			return nil
 		}
 		for i := 0; i < c.A; i++ {
@@ -175,6 +196,37 @@ func checkObjCase(c ObjCase, o *vt.Obs) error {
 		}
 		tmpl.Signers[0].Scopes = transaction.Rules
 		tmpl.Signers[0].Rules = []transaction.WitnessRule{{Action: transaction.WitnessDeny, Condition: cond}}
+	case "scope":
+		tmpl.Signers[0].Scopes = transaction.WitnessScope(c.B)
+		if tmpl.Signers[0].Scopes&transaction.CustomContracts != 0 {
+			tmpl.Signers[0].AllowedContracts = []util.Uint160{widePool[1].Hash}
+		}
+		if tmpl.Signers[0].Scopes&transaction.CustomGroups != 0 {
+			tmpl.Signers[0].AllowedGroups = []*keys.PublicKey{widePool[1].Pub}
+		}
+		if tmpl.Signers[0].Scopes&transaction.Rules != 0 {
+			tmpl.Signers[0].Rules = []transaction.WitnessRule{{Action: transaction.WitnessAllow, Condition: boolCond(true)}}
+		}
+	case "action":
+		tmpl.Signers[0].Scopes = transaction.Rules
+		tmpl.Signers[0].Rules = []transaction.WitnessRule{{Action: transaction.WitnessAction(c.A), Condition: boolCond(true)}}
+	case "version":
+		tmpl.Version = uint8(c.A)
+	case "dupattr":
+		for i := 0; i < c.A; i++ {
+			tmpl.Attributes = append(tmpl.Attributes, transaction.Attribute{Type: transaction.NotValidBeforeT, Value: &transaction.NotValidBefore{Height: bc.BlockHeight()}})
+		}
+	case "unscoped":
+		for i := 0; i < c.A; i++ {
+			switch c.B {
+			case 0:
+				tmpl.Signers[0].AllowedContracts = append(tmpl.Signers[0].AllowedContracts, widePool[i].Hash)
+			case 1:
+				tmpl.Signers[0].AllowedGroups = append(tmpl.Signers[0].AllowedGroups, widePool[i].Pub)
+			default:
+				tmpl.Signers[0].Rules = append(tmpl.Signers[0].Rules, transaction.WitnessRule{Action: transaction.WitnessAction(7), Condition: boolCond(true)})
+			}
+		}
 	case "script":
 		n := transaction.MaxScriptLength + c.A
 		blob := n - 5
